@@ -1741,10 +1741,12 @@ class Cell(Bucket):
             if not app.server:
                 # If renewal attempt failed, restore previous placement and
                 # expiry date.
-                if restore:
-                    restore['server'].restore(app, restore['placement_expiry'])
+                if restore and restore['server'].restore(
+                        app, restore['placement_expiry']):
                     app.renew = True
                 else:
+                    # Nothing to restore, or the old server no longer
+                    # accepts the app (partition or traits changed).
                     app.release_identity()
                     placement_tracker.adjust(app)
 
